@@ -306,4 +306,10 @@ def checkRC (users : Int) (op : String) (err checked : Bool) : List String :=
   (if op = "tick" && checked && decide (users ≤ 0) then ["C18/refcount/checking-after-last-shutdown"] else []) ++
   (if op = "tick" && !checked && decide (users > 0) then ["C18/refcount/not-checking-while-users-remain"] else [])
 
+
+/-- oracle for "the mode is determined solely by the most recent measurement": across a step in which
+`measured` readings were taken, the observed mode went from `before` to `after` -/
+def checkMode (before after : Bool) (measured : Nat) : List String :=
+  if measured = 0 && before != after then ["C18/shared/refusal-changed-without-a-measurement"] else []
+
 end OtelVerif.C18
